@@ -730,9 +730,37 @@ def status_fns(facts):
     return out
 
 
+_cl_memo = {}
+
+
+def uses_closures(facts, fn, depth=0):
+    """does the function (or, within four calls, a local callee) build a closure or is it one?  Values that flow through
+    iterator / Option combinators taking closures (`fold`, `for_each`, `map`, ..) are not modelled by the value-set
+    evaluation: TOP there means *undecided*, not wrong."""
+    key = (id(facts), fn["id"])
+    if key in _cl_memo:
+        return _cl_memo[key]
+    _cl_memo[key] = False
+    res = fn["kind"] == "Closure"
+    if not res:
+        for b in fn["blocks"]:
+            for st in b["s"]:
+                if st[0] == "A" and st[2][0] == "agg" and st[2][1].get("k") == "closure":
+                    res = True
+            t = b["t"]
+            if not res and depth < 4 and t[0] == "call" and t[1].get("l") and t[1].get("id") in facts.fns:
+                if uses_closures(facts, facts.fns[t[1]["id"]], depth + 1):
+                    res = True
+            if res:
+                break
+    _cl_memo[key] = res
+    return res
+
+
 def run_maskdom(facts, run, prop, want=("K1", "K2")):
     eng = MaskEngine(facts)
     cfg = facts.config
+    undecided = []
     import json, os
     tab = json.load(open(os.path.join(os.path.dirname(os.path.dirname(os.path.abspath(__file__))), "tables", "masks.json")))
     non_status = [re.compile(x["fn"]) for x in tab["non_status"]]
@@ -750,6 +778,10 @@ def run_maskdom(facts, run, prop, want=("K1", "K2")):
             r = res["ret"]
             v = r if fld == -1 else (r.get(fld, TOP) if isinstance(r, dict) else TOP)
             ok = is_subset(v, MASK32) or any(p.fullmatch(nn) for p in producer_ok)
+            if not ok and v is TOP and uses_closures(facts, fn):
+                undecided.append("K2 %s" % nn)
+                run.oblige(ok=False)
+                continue
             run.oblige(ok=ok)
             if ok:
                 nk2ok += 1
@@ -786,6 +818,10 @@ def run_maskdom(facts, run, prop, want=("K1", "K2")):
                     nn = norm_name(fn["name"])
                     cn = norm_name(t[1]["f"])
                     ok = is_subset(v, MASK32) or any(a.fullmatch(nn) and b.fullmatch(cn) for a, b in k1_ok)
+                    if not ok and v is TOP and uses_closures(facts, fn):
+                        undecided.append("K1 %s -> %s" % (nn, cn))
+                        run.oblige(ok=False)
+                        continue
                     run.oblige(ok=ok)
                     if ok:
                         nk1ok += 1
@@ -796,7 +832,7 @@ def run_maskdom(facts, run, prop, want=("K1", "K2")):
                                             fn["name"], fn["file"], t[5], t[1]["f"], desc),
                                         config=cfg, site="%s:%s" % (fn["file"], t[5]), prop=prop))
     run.stats = getattr(run, "stats", {})
-    run.stats.update(k1_sites=nk1, k1_ok=nk1ok, k2_fns=nk2, k2_ok=nk2ok, contexts=len(eng.memo))
+    run.stats.update(k1_sites=nk1, k1_ok=nk1ok, k2_fns=nk2, k2_ok=nk2ok, contexts=len(eng.memo), undecided_closure_idioms=undecided[:30])
     return eng
 
 
